@@ -4,6 +4,7 @@ import CqlVerif.Drv.Retry
 import CqlVerif.Drv.Core
 import CqlVerif.Drv.Storm
 import CqlVerif.Drv.Sched
+import CqlVerif.Drv.Gate
 open CqlVerif.Drv
 
 def dispatch (stream op real : String) : Verdict :=
@@ -14,6 +15,7 @@ def dispatch (stream op real : String) : Verdict :=
   | "core" => CoreStream.handle op real
   | "storm" => StormStream.handle op real
   | "sched" => SchedStream.handle op real
+  | "gate" => GateStream.handle op real
   | _ => { kind := "diff", detail := s!"unknown stream {stream}" }
 
 partial def loop (h : IO.FS.Stream) (out : IO.FS.Stream) : IO Unit := do
